@@ -225,6 +225,24 @@ func init() {
 		})
 	}
 	Registry["C20"] = func(c *Ctx) {
+		// (a) concurrent part: the caller's batch stays intact when its Write leads a merged group
+		for i := 0; i < c.Scale(12, 150) && !c.Hung; i++ {
+			r := c.R.Fork()
+			o := gen.RandOpts(r)
+			o.Cmp = "bytewise"
+			o.WriteBuffer = 4096
+			o.NoWriteMerge = false
+			cfg := wpCfg{Opts: o, Writers: 4 + r.Intn(12), Calls: 6 + r.Intn(10), Competitor: true, YieldMask: uint32(r.U64()), Procs: r.Pick(2, 4, 16), Seed: r.U64()}
+			wr, stats := runWp(cfg)
+			c.Res.Eval(fmt.Sprintf("conc/%+v", cfg), stats["accept"] > 0)
+			c.Res.CountN("concurrent", "merged-writers", stats["accept"])
+			for j, sg := range wr.sigs {
+				if sg == "write:caller-batch-modified" || sg == "writers:hang" {
+					c.Res.Violate(sg, wr.fails[j], map[string]interface{}{"config": cfg})
+					return
+				}
+			}
+		}
 		w := DefaultWeights
 		w.Get, w.Iter = 24, 10
 		runPlan(c, progPlan{
@@ -241,7 +259,7 @@ func init() {
 				o.Compression = 1 + (x>>2)&1
 			},
 			nontriv: func(r *Runner) bool { return r.Stats["get"] > 10 },
-			rule:    "C01-style programs with poisoning: every argument buffer (keys, values, batch contents, range bounds, seek keys) is overwritten right after the call returns, every Get result is overwritten and the Get repeated, iterator key/value are checked for stability until the next move; over buffer pool on/off × block cache on/off × compression none/snappy; results must still match the plain map",
+			rule:    "(a) concurrent Put/Write scenarios in which the caller's batch is compared before and after DB.Write (a leader must not append merged records to it); (b) C01-style programs with poisoning: every argument buffer (keys, values, batch contents, range bounds, seek keys) is overwritten right after the call returns, every Get result is overwritten and the Get repeated, iterator key/value are checked for stability until the next move; over buffer pool on/off × block cache on/off × compression none/snappy; results must still match the plain map",
 		})
 	}
 	Registry["C16"] = func(c *Ctx) {
